@@ -10,12 +10,12 @@ META = {
 
 
 def run(run, model):
-    run.do(marker.report_rule, model, "C10.own-release", marker.MARKER_REGIONS, "every key removal happens in state H, or the entry snapshot is restored")
+    run.do(marker.report_rule, model, "C10.own-release", marker.MARKER_REGIONS_ALL, "every key removal happens in state H, or the entry snapshot is restored")
     run.do(marker.report_rule, model, "C10.test-first", marker.MARKER_REGIONS, "no contract is evaluated by an activation that acquired blindly")
     run.do(marker.report_rule, model, "C10.held-for-contracts", marker.MARKER_REGIONS, "every contract event occurs in state H")
     run.do(marker.body_rules, model)
     run.do(marker.key_rule, model)
-    marker.report_rule(run, model, "C11.release-on-all-exits", marker.MARKER_REGIONS, "no exit is reached with the marker held (a leaked marker would leave later, non re-entrant calls unchecked)", as_rule="C10.no-sticky")
+    marker.report_rule(run, model, "C11.release-on-all-exits", marker.MARKER_REGIONS_ALL, "no exit is reached with the marker held (a leaked marker would leave later, non re-entrant calls unchecked)", as_rule="C10.no-sticky")
     from . import inv
     run.do(inv.selection, model, "C10.wrapped-members", "C10.wrapped-members-source")
     from . import twins
